@@ -6,6 +6,12 @@ use jammdb::OpenOptions;
 use std::io::Write;
 use std::panic::{catch_unwind, AssertUnwindSafe};
 
+/// one `write` call per line: several workers append to the same log concurrently
+fn logline(log: &mut std::fs::File, mut line: String) {
+    line.push('\n');
+    log.write_all(line.as_bytes()).unwrap();
+}
+
 fn now() -> u128 {
     let mut ts = libc::timespec { tv_sec: 0, tv_nsec: 0 };
     unsafe { libc::clock_gettime(libc::CLOCK_MONOTONIC, &mut ts) };
@@ -21,20 +27,20 @@ pub fn main(args: &[String]) {
     let delay_ms: u64 = args[5].parse().unwrap();
     let grow: usize = args.get(6).map(|s| s.parse().unwrap()).unwrap_or(0);
     std::thread::sleep(std::time::Duration::from_millis(delay_ms));
-    writeln!(log, "{} open-called {}", id, now()).unwrap();
+    logline(&mut log, format!("{} open-called {}", id, now()));
     let r = catch_unwind(AssertUnwindSafe(|| OpenOptions::new().pagesize(pagesize).num_pages(16).open(&path)));
     let db = match r {
         Ok(Ok(db)) => db,
         Ok(Err(e)) => {
-            writeln!(log, "{} open-failed {} {}", id, now(), err_class(&e)).unwrap();
+            logline(&mut log, format!("{} open-failed {} {}", id, now(), err_class(&e)));
             return;
         }
         Err(p) => {
-            writeln!(log, "{} open-failed {} {}", id, now(), panic_class(&*p)).unwrap();
+            logline(&mut log, format!("{} open-failed {} {}", id, now(), panic_class(&*p)));
             return;
         }
     };
-    writeln!(log, "{} open-returned {}", id, now()).unwrap();
+    logline(&mut log, format!("{} open-returned {}", id, now()));
     if let Some(fifo) = args.get(7) {
         // inside the database, nothing done yet: wait until the orchestrator releases us
         std::fs::File::create(format!("{}.at", fifo)).expect("at");
@@ -72,11 +78,11 @@ pub fn main(args: &[String]) {
         (seen, c.is_ok())
     }));
     match work {
-        Ok((seen, ok)) => writeln!(log, "{} worked {} seen=[{}] commit={}", id, now(), seen.join(","), ok).unwrap(),
-        Err(p) => writeln!(log, "{} work-failed {} {}", id, now(), panic_class(&*p)).unwrap(),
+        Ok((seen, ok)) => logline(&mut log, format!("{} worked {} seen=[{}] commit={}", id, now(), seen.join(","), ok)),
+        Err(p) => logline(&mut log, format!("{} work-failed {} {}", id, now(), panic_class(&*p))),
     }
     std::thread::sleep(std::time::Duration::from_millis(hold_ms));
-    writeln!(log, "{} about-to-close {}", id, now()).unwrap();
+    logline(&mut log, format!("{} about-to-close {}", id, now()));
     drop(db);
-    writeln!(log, "{} closed {}", id, now()).unwrap();
+    logline(&mut log, format!("{} closed {}", id, now()));
 }
